@@ -2009,8 +2009,10 @@ class SQLModel:
         sql_prefix = _list_join_expecting_list(",", col_stmts) + [
             "FROM ( SELECT * FROM "
         ]
-        sql_suffix = [" ) a"]
-        if len(control_cols) > 0:  # no record keys: the whole table is one record, aggregate without grouping
+        # no record keys: the whole table is one record, aggregated without grouping (and no record from no rows)
+        sql_suffix = [" ) a", "HAVING COUNT(1) > 0"]
+        if len(control_cols) > 0:
+            sql_suffix = [" ) a"]
             sql_suffix = (
                 sql_suffix
                 + ["GROUP BY"]
